@@ -41,6 +41,12 @@ def _fresh_path():
     return os.path.join(d, f"fresh-{tag}.json")
 
 
+def _editable(tier):
+    """specifications for which edited-object steps are generated (plots only in the thorough tier: each needs a new interpreter)"""
+    from vmon import specs
+    return [n for n in specs.SPECS if tier == "thorough" or not specs.SPECS[n].fig]
+
+
 def prepare(tier, seed):
     """Reference values: every specification executed alone as the first pyrepseq call of a fresh interpreter.
 
@@ -54,6 +60,10 @@ def prepare(tier, seed):
     names = list(specs.SPECS)
     strict = names if tier == "thorough" else [n for n in names if specs.SPECS[n].fig or specs.SPECS[n].np_seed is not None]
     rest = [n for n in names if n not in strict]
+    # "<spec>@edited": the same call on arguments edited in place before the first call (reference for the edited-object steps)
+    editable = _editable(tier)
+    strict = strict + [n + "@edited" for n in editable if n in strict]
+    rest = rest + [n + "@edited" for n in editable if n + "@edited" not in strict]
 
     def one(name):
         try:
@@ -124,13 +134,69 @@ def _close():
         pass
 
 
-def run_spec(ctx, name, fault=None, record_args=True):
-    """Returns canonical value (JSON).  Argument purity is monitored here."""
+def edit_in_place(built):
+    """The caller edits its own argument objects in place (same objects, same sizes and types): the first element / row of every
+    mutable collection among the positional arguments takes the value of the last one.  Returns True if anything changed."""
+    import numpy as np
+    import pandas as pd
+    changed = [False]
+
+    def ed(x, depth=0):
+        if isinstance(x, pd.DataFrame):
+            if len(x) >= 2:
+                for c in range(x.shape[1]):
+                    a, b = x.iat[0, c], x.iat[len(x) - 1, c]
+                    if not (a is b or (a == b) is True or (a != a and b != b)):
+                        changed[0] = True
+                    x.iat[0, c] = b
+        elif isinstance(x, pd.Series):
+            if len(x) >= 2:
+                if not ((x.iloc[0] == x.iloc[-1]) is True or bool(np.all(x.iloc[0] == x.iloc[-1]))):
+                    changed[0] = True
+                x.iloc[0] = x.iloc[-1]
+        elif isinstance(x, np.ndarray):
+            if x.ndim >= 1 and x.shape[0] >= 2 and x.flags.writeable:
+                if not np.array_equal(x[0], x[-1]):
+                    changed[0] = True
+                x[0] = x[-1]
+        elif isinstance(x, list):
+            if len(x) >= 2 and all(isinstance(v, (str, int, float, type(None))) for v in x):
+                if x[0] != x[-1]:
+                    changed[0] = True
+                x[0] = x[-1]
+            elif depth < 2:
+                for v in x:
+                    ed(v, depth + 1)
+        elif isinstance(x, tuple) and depth < 2:
+            for v in x:
+                ed(v, depth + 1)
+    def data_args(args):
+        # the primary data object, and the second positional argument when it is a collection of the same kind (two-collection calls);
+        # option-like arguments (column lists, bin edges, weights) are left alone
+        args = list(args)
+        out = args[:1]
+        if len(args) >= 2 and type(args[1]) is type(args[0]):
+            out.append(args[1])
+        return out
+    # two-stage specifications (object construction + method): the object is kept and only the method's arguments are edited
+    for a in data_args(built[3] if len(built) == 5 else built[0]):
+        ed(a)
+    return changed[0]
+
+
+def run_spec(ctx, name, fault=None, record_args=True, built=None, holder=None):
+    """Returns canonical value (JSON).  Argument purity is monitored here.
+    name "<spec>@edited": the arguments are built, edited in place (edit_in_place) and then used for the call.
+    built: argument objects to use instead of freshly built ones (the same objects as in an earlier call)."""
     import numpy as np
     from vmon import canon, specs
     from vmon.lines import Failpoint, InjectedFault
-    s = specs.SPECS[name]
-    built = s.build()
+    base_name, _, variant = name.partition("@")
+    s = specs.SPECS[base_name]
+    if built is None:
+        built = s.build()
+        if variant == "edited":
+            edit_in_place(built)
     args, kwargs = built[0], built[1]
     method, margs, mkwargs = (built[2], built[3], built[4]) if len(built) == 5 else (None, (), {})
     watched_args = tuple(args) + tuple(margs)
@@ -141,9 +207,13 @@ def run_spec(ctx, name, fault=None, record_args=True):
         np.random.seed(s.np_seed)
 
     def invoke():
+        if holder is not None and "obj" in holder and method is not None:
+            return ctx.call(getattr(holder["obj"], method), *margs, **mkwargs)    # the object constructed by the earlier call is used again
         out0 = ctx.call(fn, *args, **kwargs)
         if method is None or not out0.ok:
             return out0
+        if holder is not None:
+            holder["obj"] = out0.value
         return ctx.call(getattr(out0.value, method), *margs, **mkwargs)      # second stage: method of the constructed object
     injected = False
     if fault:
@@ -251,7 +321,20 @@ def _run_history(ctx, steps):
     for st in steps:
         name = st["spec"]
         s = specs.SPECS[name]
-        value, injected = run_spec(ctx, name, fault=st.get("fault"))
+        if st.get("edit"):
+            # first call with freshly built arguments; then the caller edits those very objects in place and calls again
+            built = s.build()
+            holder = {}
+            value, injected = run_spec(ctx, name, built=built, holder=holder)
+            if edit_in_place(built):
+                v2, _ = run_spec(ctx, name, built=built, holder=holder)
+                ctx.count("calls_with_same_objects_edited_in_place")
+                if v2 != ref[name + "@edited"]:
+                    ctx.violation(f"history-dependent:{s.func}:same-objects-edited",
+                                  f"spec {name}: after the caller edited the argument objects in place, the second call with the same objects differs from a "
+                                  "first call on equal content in a fresh interpreter", v2, ref[name + "@edited"], {"history": prev})
+        else:
+            value, injected = run_spec(ctx, name, fault=st.get("fault"))
         ctx.count(f"spec:{name}")
         if injected:
             ctx.count("injected_faults")
@@ -385,6 +468,10 @@ def generate(tier, seed):
     for func, group in sorted(by_func.items()):
         if len(group) >= 2:
             yield "history", {"steps": [{"spec": n} for n in group] + [{"spec": n} for n in reversed(group)]}, True
+    # the caller re-uses its argument objects after editing them in place (caches keyed by object identity)
+    ed = _editable(tier)
+    for i in range(0, len(ed), 10):
+        yield "history", {"steps": [{"spec": n, "edit": True} for n in ed[i:i + 10]]}, True
     # every spec at least once, in shuffled blocks, each block twice in different orders
     order = list(names)
     rng.shuffle(order)
